@@ -589,7 +589,8 @@ def main(chk: core.Check) -> int:
                         "the independent decoder cannot read a few branches (listed in the evidence); for those only the framing-mode model and the synthetic three-way correspondence apply",
                         "the reader assumes (as BES3 writers guarantee): empty array name, every object header carries a byte count, the array's own TObject is not referenced"]
     core.regen_rootpy(chk)
-    chk.prove(modules=["C01", "C01Cgem", "RootTie"])
+    core.regen_rootcpp(chk)
+    chk.prove(modules=["C01", "C01Cgem", "RootTie", "RootCppTie"])
     try:
         synthetic(chk, 1500 if thorough else 200)
         digi(chk)
